@@ -99,6 +99,7 @@ class Ref:
         self.cutfails = []
         self.calls = []
         self.matched_terminals = 0
+        self.openlist_values = False
 
     def allnames(self):
         if not hasattr(self, '_allnames'):
@@ -225,6 +226,8 @@ class Ref:
             q_, i, b = self.ev(e[1], p, sc)
             if has_noitem(e[1]):
                 self.flags.add('U3')
+            if k == 'ovrl' or len(i) > 1:
+                self.openlist_values = True   # the rule's value is an "open" list (see known finding F-C01-a)
             return q_, i, b + [(k, '@', fold(i))]
         if k == 'const':
             p = self.skip(p)
@@ -414,6 +417,8 @@ class Ref:
                     cur = ast.get(n)
                     ast[n] = Acc([v]) if cur is None or cur == [] else (Acc(cur + [v]) if isinstance(cur, list) else Acc([cur, v]))
                 elif kind == 'ovr':
+                    if ovr:
+                        self.openlist_values = True   # repeated overrides accumulate into an "open" list (F-C01-a)
                     ovv = v if not ovr else self.cstadd(ovv, v)
                     ovr = True
                 elif kind == 'ovrl':
